@@ -213,13 +213,12 @@ impl Freelist {
         };
 
         if count == 0 {
-            if next_trunk == 0 {
-                self.head_page = 0;
-                self.free_count = 0;
-                return Ok(None);
-            }
+            // An empty trunk page is itself a free page (release counted it in free_count):
+            // hand it out and move on to the next trunk.
+            let page_no = self.head_page;
             self.head_page = next_trunk;
-            return self.allocate(storage);
+            self.free_count -= 1;
+            return Ok(Some(page_no));
         }
 
         let entry_index = (count - 1) as usize;
@@ -244,10 +243,6 @@ impl Freelist {
         let trunk = TrunkHeader::from_bytes_mut(&mut page_data[trunk_offset..])?;
         trunk.set_count(count - 1);
         self.free_count -= 1;
-
-        if count - 1 == 0 {
-            self.head_page = next_trunk;
-        }
 
         Ok(Some(page_no))
     }
